@@ -96,7 +96,8 @@ def split_statements(body):
     pos = 0
 
     def text(ts):
-        return " ".join(t[1] for t in ts)
+        # member access without spaces, so that look-behinds can tell `x.add_face(` from a bare `add_face(`
+        return re.sub(r"\s*(\.|->|::)\s*", r"\1", " ".join(t[1] for t in ts))
 
     def parse_block(end_tok):
         nonlocal pos
@@ -178,12 +179,25 @@ def split_statements(body):
     return parse_block("\0")
 
 
+def diverges(items):
+    """the block always leaves the function: its last statement is a return or a throw"""
+    if not items:
+        return False
+    last = items[-1]
+    if last[0] == "stmt":
+        return bool(re.match(r"\s*(return\b|throw\b)", last[1]))
+    if last[0] == "block":
+        return diverges(last[1])
+    return False
+
+
 class FnAnalysis:
     def __init__(self, ctx, grows_of):
         self.ctx = ctx
         self.grows_of = grows_of       # name -> set of containers (summaries of analysed functions)
         self.refs = {}                 # var -> id
         self.events = []
+        self.alternatives = []         # traces of the paths that leave the function early (return / throw inside a block)
         self.direct = set()
 
     def rid(self, v):
@@ -237,7 +251,16 @@ class FnAnalysis:
             if it[0] == "stmt":
                 self.stmt(it[1], bound)
             elif it[0] == "block":
-                self.tree(it[1], bound)
+                if diverges(it[1]):
+                    # the path through this block ends the function: record it as an alternative trace and do not let
+                    # its events flow into the code that follows the block
+                    saved_events, saved_bound = list(self.events), dict(bound)
+                    self.tree(it[1], bound)
+                    self.alternatives.append(list(self.events))
+                    self.events, bound_restored = saved_events, saved_bound
+                    bound.clear(); bound.update(bound_restored)
+                else:
+                    self.tree(it[1], bound)
             elif it[0] == "loop":
                 hdr, inner = it[1], it[2]
                 m = RANGE_FOR.match(hdr)
@@ -266,18 +289,65 @@ class FnAnalysis:
                     self.events.append(("use", self.rid("__it_" + rng[0]), "__it_" + rng[0]))
 
 
+ALL_FILES = [
+    ("src/triangulation_modules/local_mesh_refiner.cpp", "local_mesh_refiner", "lmr"),
+    ("src/mesh/cell.cpp", "cell", "cell"),
+    ("src/triangulation_modules/ball_pivoting_algorithm.cpp", "ball_pivoting_algorithm", "bpa"),
+    ("src/triangulation_modules/cell_divider.cpp", "cell_divider", "div"),
+    ("src/triangulation_modules/poisson_sampling.cpp", "poisson_sampling", "div"),
+    ("src/triangulation_modules/initial_triangulation.cpp", "initial_triangulation", "div"),
+    ("src/contact_models/contact_model_abstract.cpp", "contact_model_abstract", "cell"),
+    ("src/contact_models/contact_node_node_via_coupling.cpp", "contact_node_node_via_coupling", "cell"),
+    ("src/time_integration/time_integration.cpp", "time_integration_scheme", "cell"),
+    ("src/solver.cpp", "solver", "div"),
+]
+
+
+def all_definitions(src, cls):
+    """[(qualified name, occurrence index)] of every member function definition `cls::name(...) {`"""
+    out = []
+    seen = {}
+    for m in re.finditer(r"(?<![\w:])" + re.escape(cls) + r"::(~?\w+)\s*\(", src):
+        q = cls + "::" + m.group(1)
+        p0 = m.end() - 1
+        try:
+            p1 = X.match_brace(src, p0, "(", ")")
+        except X.TranslateError:
+            continue
+        rest = src[p1 + 1:p1 + 300]
+        if re.match(r"\s*(const)?\s*(noexcept(\s*\([^)]*\))?)?\s*(override)?\s*(:[^{;]*)?\{", rest):
+            k = seen.get(q, 0)
+            seen[q] = k + 1
+            out.append((q, k))
+    return out
+
+
 def analyse_all():
     srcs = {}
     bodies = {}
-    for rel, q, ctx in FUNCS:
+    skipped = []
+    listed = {(rel, q) for rel, q, _ in FUNCS}
+    work = [(rel, q, ctx, 0) for rel, q, ctx in FUNCS]
+    for rel, cls, ctx in ALL_FILES:
+        if rel not in srcs:
+            srcs[rel] = T.src(rel)
+        for q, k in all_definitions(srcs[rel], cls):
+            if (rel, q) in listed and k == 0:
+                continue
+            work.append((rel, q, ctx, k))
+    for rel, q, ctx, k in work:
         if rel not in srcs:
             srcs[rel] = T.src(rel)
         try:
-            _, body = X.find_function(srcs[rel], q)
-        except X.TranslateError:
-            # overloaded: take the first definition that exists
-            raise
-        bodies[q] = (ctx, split_statements(body))
+            _, body = X.find_function(srcs[rel], q, k)
+            tree = split_statements(body)
+        except X.TranslateError as e:
+            if (rel, q) in listed:
+                raise
+            skipped.append("%s#%d: %s" % (q, k, e))
+            continue
+        bodies[q if k == 0 else "%s#%d" % (q, k)] = (ctx, tree)
+    analyse_all.skipped = skipped
     # fixpoint of growth summaries
     grows = {short(q): set() for q in bodies}
     for _ in range(6):
@@ -286,9 +356,10 @@ def analyse_all():
             a = FnAnalysis(ctx, {k: v for k, v in grows.items() if k != short(q)})
             a.tree(tree, {})
             g = set(a.direct)
-            for ev in a.events:
-                if ev[0] == "grow":
-                    g.add(ev[1])
+            for evs in [a.events] + a.alternatives:
+                for ev in evs:
+                    if ev[0] == "grow":
+                        g.add(ev[1])
             if g != grows[short(q)]:
                 grows[short(q)] = g; changed = True
         if not changed:
@@ -399,13 +470,16 @@ def gen_safety():
     names = []
     summary = {}
     for q, a in analyses.items():
-        nm = "trace_" + q.replace("::", "_")
+        nm = "trace_" + q.replace("::", "_").replace("#", "_ov").replace("~", "dtor_")
         names.append(nm)
-        evs = ", ".join(lean_ev(e) for e in a.events)
         refs = ", ".join("%d=%s" % (i, v) for v, i in a.refs.items())
         lean += "/-- `%s`; references: %s; containers: 0=node_lst_ 1=face_lst_ 2=edge_lst_ 3=cell_lst -/\n" % (q, refs or "none")
-        lean += "def %s : List RefTrace.Ev := [%s]\n" % (nm, evs)
-        summary[q] = {"events": len(a.events), "refs": len(a.refs)}
+        lean += "def %s : List RefTrace.Ev := [%s]\n" % (nm, ", ".join(lean_ev(e) for e in a.events))
+        for j, alt in enumerate(a.alternatives):
+            an = "%s_exit%d" % (nm, j)
+            names.append(an)
+            lean += "/-- an early-exit path of `%s` -/\ndef %s : List RefTrace.Ev := [%s]\n" % (q, an, ", ".join(lean_ev(e) for e in alt))
+        summary[q] = {"events": len(a.events), "refs": len(a.refs), "early_exit_paths": len(a.alternatives)}
     lean += "def allTraces : List (String × List RefTrace.Ev) := [%s]\n" % ", ".join('("%s", %s)' % (n, n) for n in names)
     rows = class_table()
     lean += "/-- (member of solver, base class, base has a virtual destructor, owns an object of a derived class) -/\n"
@@ -423,7 +497,7 @@ def gen_safety():
     text = ("-- GENERATED by tools/gen/c10_traces.py from /repo — do not edit.\nimport SimuVerif.Model.RefTrace\n"
             "namespace Simu.Gen\nopen Simu\n" + lean + "end Simu.Gen\n")
     changed = T.write_if_changed(os.path.join(T.GEN, "SafetyTables.lean"), text)
-    return {"file": "Gen/SafetyTables.lean", "rewritten": changed, "functions": summary,
+    return {"file": "Gen/SafetyTables.lean", "rewritten": changed, "functions": summary, "functions_skipped": getattr(analyse_all, "skipped", []),
             "growth_summaries": {k: sorted(CNAME[c] for c in v) for k, v in grows.items()},
             "owned_through_base": [(m, b, ds, v) for (m, b, ds, v) in rows], "node_members": nrows,
             "format_buffer": size, "formats": fmts, "sha256": hashlib.sha256(text.encode()).hexdigest()[:16]}
